@@ -87,6 +87,21 @@ def grammar_corpus():
     c["unused_terminal"] = shape("N0", "ab", "N0 -> a N0", "N0 -> a")
     c["sss"] = shape("N0", "a", "N0 -> N0 N0 N0", "N0 -> a", "N0 ->")
     c["x_unary_null"] = shape("N0", "ab", "N0 -> N1", "N1 -> N2", "N2 ->", "N2 -> a N0", "N1 -> b")
+    # indirect left recursion through two nonterminals with a further left corner on the side, in several rule orders (the parsers
+    # number nonterminals in rule order, and left-corner closures are traversed in that order): a closure that is memoised before
+    # its cycle is complete loses predictions (strengthened after seeded changes C01-4, C02-3, C05-4)
+    ilr = {
+        "indirect_lr_null": ("abc", ["N0 ->", "N0 -> b", "N0 -> N1 N1 c", "N1 -> a", "N1 -> N0"]),
+        "indirect_lr_two_entries": ("ab", ["N0 -> a N1 a", "N0 -> b N2 b", "N3 -> a", "N1 -> N2 a", "N1 -> N3 b", "N2 -> N1 b", "N2 -> a"]),
+        "indirect_lr_lone_member": ("ab", ["N0 -> a N2", "N1 -> N2 a", "N2 -> N1 b", "N1 -> N3 b", "N3 -> a", "N0 -> N1", "N2 -> b"]),
+    }
+    prm = random.Random(20240917)
+    for nm, (V, rules) in ilr.items():
+        c[nm] = shape("N0", V, *rules)
+        for k in range(5):
+            rs = list(rules)
+            prm.shuffle(rs)
+            c[f"{nm}_p{k}"] = shape("N0", V, *rs)
     return c
 
 
